@@ -32,8 +32,29 @@ Record c14_case := {
                                                       among the submitted designs) that are handed to evaluate()
                                                       once more, after the new ones; all empty = the runs the
                                                       theorems are about *)
-  c_pre : list (list bool) }.                      (* per batch, per new design: already evaluated by a plain
+  c_pre : list (list bool);                        (* per batch, per new design: already evaluated by a plain
                                                       Evaluator before it is submitted (false / missing = EMPTY) *)
+  c_fails : list (nat * fvec) }.                   (* the failure tape: (global call number of an objective call that
+                                                      raised TimeoutError / RuntimeError, the vector gen_vector
+                                                      returned for the re-draw), as scripted by / recorded on the
+                                                      implementation run *)
+
+(* the tape as the model's `fails`; the empty tape is literally the function of the failure-free theorems *)
+Fixpoint look_fail (t : list (nat * fvec)) (k : nat) : option fvec :=
+  match t with
+  | [] => None
+  | (k', w) :: t' => if Nat.eqb k k' then Some w else look_fail t' k
+  end.
+Definition tape_fails (t : list (nat * fvec)) : nat -> option fvec :=
+  match t with [] => fun _ => None | _ => look_fail t end.
+(* no job fails five times in a row (the code would raise RuntimeError: outside the model, fail closed);
+   a run of consecutive failing call numbers belongs to one job *)
+Definition tape_ok (t : list (nat * fvec)) : bool :=
+  forallb (fun kw => let k := fst kw in
+             negb (match look_fail t (k + 1), look_fail t (k + 2), look_fail t (k + 3), look_fail t (k + 4) with
+                   | Some _, Some _, Some _, Some _ => true
+                   | _, _, _, _ => false
+                   end)) t.
 
 Definition POISON : fvec := [nan; nan; nan; nan; nan; nan; nan].
 
@@ -77,13 +98,13 @@ Definition plain_sum (l : fvec) : float := fold_left PrimFloat.add l 0%float.
 Definition DELTA : float := 0x1.a36e2eb1c432dp-14%float.     (* 1e-4 *)
 
 (* one heap cell as observed: vector, costs, costs_signed, evaluated?, parents, children,
-   features['sensitivity'], features['gradient'] *)
+   features['sensitivity'], features['gradient'], number of failed objective calls on this individual *)
 Definition dump : Type :=
-  fvec * fvec * list (sval float) * bool * list nat * list nat * option float * option fvec.
+  fvec * fvec * list (sval float) * bool * list nat * list nat * option float * option fvec * nat.
 
 Definition dump_of (d : design float) : dump :=
   (d_vec _ d, d_costs _ d, d_signed _ d, match d_state _ d with EVALUATED => true | EMPTY => false end,
-   d_parents _ d, d_children _ d, d_sens _ d, d_grad _ d).
+   d_parents _ d, d_children _ d, d_sens _ d, d_grad _ d, d_fail _ d).
 
 (* cells in creation order, call log, processing log, |self.individuals|, |self.to_evaluate|,
    cells of the submitted designs per batch;  None = the evaluator raised (IndexError) *)
@@ -112,20 +133,22 @@ Fixpoint hist_items (bs : list (list fvec)) (ag : list (list nat)) (pre : list (
 
 Definition c14_run (c : c14_case) : c14_obs :=
   let t := c_table c in
+  let fails := tape_fails (c_fails c) in
+  if negb (tape_ok (c_fails c)) then None else
   let psum := if c_comp c then py_sum else plain_sum in
   let wce := wc_evaluate float PrimFloat.add PrimFloat.sub PrimFloat.mul PrimFloat.abs
-                         0%float 1%float (-1)%float psum (c_m c) (c_tols c) (tab_f t) (tab_sgn t) (tab_infeas t) in
+                         0%float 1%float (-1)%float psum (c_m c) (c_tols c) (tab_f t) (tab_sgn t) (tab_infeas t) fails in
   let ge := g_evaluate float PrimFloat.add PrimFloat.sub PrimFloat.div 0%float DELTA
-                       (tab_f t) (tab_sgn t) (tab_infeas t) in
+                       (tab_f t) (tab_sgn t) (tab_infeas t) fails in
   if forallb (fun l => match l with [] => true | _ => false end) (c_again c) &&
      forallb (forallb negb) (c_pre c) then
     if c_wc c then
       obs_of (wc_batches float PrimFloat.add PrimFloat.sub PrimFloat.mul PrimFloat.abs
                          0%float 1%float (-1)%float psum (c_m c) (c_tols c)
-                         (tab_f t) (tab_sgn t) (tab_infeas t) (init float) (c_batches c))
+                         (tab_f t) (tab_sgn t) (tab_infeas t) fails (init float) (c_batches c))
     else
       match g_batches float PrimFloat.add PrimFloat.sub PrimFloat.div 0%float DELTA
-                      (tab_f t) (tab_sgn t) (tab_infeas t) (init float) (c_batches c) with
+                      (tab_f t) (tab_sgn t) (tab_infeas t) fails (init float) (c_batches c) with
       | Some r => obs_of r
       | None => None
       end
@@ -134,10 +157,10 @@ Definition c14_run (c : c14_case) : c14_obs :=
     if c_wc c then
       obs_of (wc_hist float PrimFloat.add PrimFloat.sub PrimFloat.mul PrimFloat.abs
                       0%float 1%float (-1)%float psum (c_m c) (c_tols c)
-                      (tab_f t) (tab_sgn t) (tab_infeas t) (init float) [] items)
+                      (tab_f t) (tab_sgn t) (tab_infeas t) fails (init float) [] items)
     else
       match g_hist float PrimFloat.add PrimFloat.sub PrimFloat.div 0%float DELTA
-                   (tab_f t) (tab_sgn t) (tab_infeas t) (init float) [] items with
+                   (tab_f t) (tab_sgn t) (tab_infeas t) fails (init float) [] items with
       | Some r => obs_of r
       | None => None
       end.
@@ -150,10 +173,10 @@ Definition sval_eqb (a b : sval float) : bool :=
   end.
 
 Definition dump_eqb (a b : dump) : bool :=
-  let '(v1, c1, s1, e1, p1, k1, x1, g1) := a in
-  let '(v2, c2, s2, e2, p2, k2, x2, g2) := b in
+  let '(v1, c1, s1, e1, p1, k1, x1, g1, r1) := a in
+  let '(v2, c2, s2, e2, p2, k2, x2, g2, r2) := b in
   fvec_eqb v1 v2 && fvec_eqb c1 c2 && list_eqb sval_eqb s1 s2 && Bool.eqb e1 e2 &&
-  list_eqb Nat.eqb p1 p2 && list_eqb Nat.eqb k1 k2 && opt_eqb fbits_eqb x1 x2 && opt_eqb fvec_eqb g1 g2.
+  list_eqb Nat.eqb p1 p2 && list_eqb Nat.eqb k1 k2 && opt_eqb fbits_eqb x1 x2 && opt_eqb fvec_eqb g1 g2 && Nat.eqb r1 r2.
 
 Definition c14_obs_eqb (a b : c14_obs) : bool :=
   opt_eqb (fun x y =>
